@@ -29,6 +29,7 @@ from .tast import (
     Tup,
     TVar,
     Uni,
+    Unsup,
     walk,
 )
 
@@ -89,6 +90,8 @@ def skeletons(t: T, ctx: Ctx, depth: int = 0, limit: int = 4) -> List[Any]:
         }[t.kind][:limit]
     if isinstance(t, AnyT):
         return [0, "a"]
+    if isinstance(t, Unsup):
+        return []
     if isinstance(t, Lit):
         return list(t.values)[:2]
     if isinstance(t, EnumT):
